@@ -235,6 +235,30 @@ func c02Run(c c02Case) []*core.Violation {
 			}
 		}
 	})
+	// 1b. the strict reader ends lines at CRLF only; every lenient reader (net/mail among them) also
+	// ends them at a bare LF, many at a bare CR: a header section that contains one parses to other
+	// fields there
+	root.Walk(func(e *mimeread.Entity) {
+		end := e.BodyStart
+		if end > len(e.Raw) || end < 0 {
+			end = len(e.Raw)
+		}
+		hdr := e.Raw[:end]
+		for i := 0; i < len(hdr); i++ {
+			if (hdr[i] == '\n' && (i == 0 || hdr[i-1] != '\r')) || (hdr[i] == '\r' && (i+1 >= len(hdr) || hdr[i+1] != '\n')) {
+				lo := i - 30
+				if lo < 0 {
+					lo = 0
+				}
+				hi := i + 30
+				if hi > len(hdr) {
+					hi = len(hdr)
+				}
+				vs = append(vs, core.V("bare-cr-lf-in-header-section", "depth %d: a bare %q inside the header section: %q", e.Depth, hdr[i], hdr[lo:hi]))
+				break
+			}
+		}
+	})
 	// 2. field multisets
 	want := oracle.ExpectedSections(&spec, b.Leaves, extras)
 	vs = append(vs, oracle.CompareSections(root, want)...)
@@ -412,7 +436,7 @@ func c02Describe() {
 	rec := core.Rec("C02")
 	rec.Rule = "rapid draws a message shape (QP or base64 message encoding, i.e. Q or B word encoder; 0..2 parts, 0..1 embeds, 0..2 attachments) and feeds hostile strings (each with a unique marker; fragments: CR/LF/CRLF + 'X-Inj-<marker>: 1', CRLF CRLF + body, NUL/C0/DEL, invalid UTF-8, RFC 5322 specials, encoded-word lookalikes, words of 60..300 bytes, many words, blanks, non-ASCII text, arbitrary bytes, header/boundary lookalikes) " +
 		"to a drawn subset of: Subject, SetGenHeader (1..3 values, standard and X- names), SetMessageIDWithValue, SetOrganization, SetUserAgent, display names via FromFormat/EnvelopeFromFormat/ReplyToFormat/AddToFormat/AddCcFormat/AddBccFormat/To/ToIgnoreInvalid/RequestMDNToFormat/RequestMDNAddToFormat, file names, file descriptions, file content-ids, part descriptions. " +
-		"Oracle: strict scan of every header section of WriteTo's output: only field and continuation lines; field-name multiset == fields set + documented defaults; leaves carry exactly the supplied content (so no section ended early); every free-text value RFC 2047-decodes (whitespace-normalised) to the string set; address fields parse (own RFC 5322 parser) to the names and mailboxes set; or the setter returned an error. " +
+		"Oracle: strict scan of every header section of WriteTo's output: only field and continuation lines, and no bare CR or LF anywhere in a header section (a strict reader ends lines at CRLF only, net/mail and most agents also at a bare LF, so such a byte makes the section parse to other fields there); field-name multiset == fields set + documented defaults; leaves carry exactly the supplied content (so no section ended early); every free-text value RFC 2047-decodes (whitespace-normalised) to the string set; address fields parse (own RFC 5322 parser) to the names and mailboxes set; or the setter returned an error. " +
 		"TestC02Enum additionally feeds every string of a fixed list of ~70 single hostile strings (each CR/LF injection form, each control/special/non-ASCII constant, lookalikes, 300-byte words) to every one of 22 setters x both encoders x 4 shapes, completely. Non-trivial: some string has a byte outside printable ASCII, an RFC 5322 special, or > 60 bytes. Distinct by (encoder, shape, setter sequence, class set, which setters were used)."
 	rec.Assumptions = []string{"*Preformatted setters and header names are excluded (raw by contract)", "IgnoreInvalid setters may drop an entry silently; then the field must be absent"}
 }
